@@ -156,17 +156,9 @@ def strategy(tier):
 
 
 def _map_directives(specs) -> str:
-    lines = []
-    for s in specs:
-        lo, hi, mask = busmodel.WINDOWS[s["win"]]
-        line = (f".map identifier={s['id']} bank_range=0x{s['first']:02x}, 0x{s['last']:02x} "
-                f"addr_range=0x{lo:04x}, 0x{hi:04x} mask=0x{mask:x}")
-        if s.get("ram"):
-            line += " writable=1"
-        if s.get("mirror"):
-            line += f" mirror_bank_range=0x{s['mirror'][0]:02x}, 0x{s['mirror'][1]:02x}"
-        lines.append(line)
-    return "\n".join(lines) + "\n"
+    # the same numbers in hexadecimal, decimal, binary or upper-case hexadecimal, chosen per map set
+    style = sum(sp["first"] * 3 + sp["last"] for sp in specs) % 5
+    return "\n".join(busmodel.map_line(sp, style) for sp in specs) + "\n"
 
 
 def _install_api(specs):
